@@ -728,7 +728,7 @@ FIXED_PROBES = [
 
 def correspond(ctx):
     quick = ctx.tier == "quick"
-    cases = [dict(c) for c in FIXED_PROBES] + [gen_case(ctx.rng) for _ in range(850 if quick else 11000)]
+    cases = [dict(c) for c in FIXED_PROBES] + [gen_case(ctx.rng) for _ in range(700 if quick else 11000)]
     cases += [gen_history(ctx.rng) for _ in range(120 if quick else 1200)]
     ctx.log("systems:", len(cases))
     run_cases(ctx, cases)
